@@ -57,6 +57,18 @@ var frames = []struct {
 	}},
 }
 
+// featureSequenceOnce: the feature's sequence on a bare parent.
+func featureSequenceOnce(parent string, loc poly.Location) (s string, err error) {
+	defer func() {
+		if r := recover(); r != nil {
+			err = fmt.Errorf("panic: %v", r)
+		}
+	}()
+	seq := poly.Sequence{Sequence: parent}
+	seq.AddFeature(&poly.Feature{Type: "misc_feature", SequenceLocation: loc})
+	return seq.Features[0].GetSequence(), nil
+}
+
 // featureSequence: the feature's sequence under every frame; they must agree (the first is returned).
 func featureSequence(parent string, loc poly.Location) (s string, err error) {
 	defer func() {
@@ -180,6 +192,28 @@ func check(c Case) error {
 	}
 	want := n.Eval(parent)
 	text := n.Text()
+	// the same location on sibling parents first (the parent with the first or the last base of the location's first or
+	// last leaf replaced by each other letter), results discarded: what a feature reports depends on its own parent
+	if len(parent) <= 3000 {
+		segs := n.Segments()
+		at := map[int]bool{}
+		for _, sg := range []insdc.Segment{segs[0], segs[len(segs)-1]} {
+			at[sg.A-1], at[sg.B-1] = true, true
+		}
+		st0 := n.Structure()
+		for pos := range at {
+			if pos < 0 || pos >= len(parent) {
+				continue
+			}
+			for _, o := range "ACGT" {
+				if byte(o) == parent[pos]&^0x20 {
+					continue
+				}
+				sib := parent[:pos] + string(byte(o)|parent[pos]&0x20) + parent[pos+1:]
+				_, _ = featureSequenceOnce(sib, st0)
+			}
+		}
+	}
 	// (a) text -> poly's parser -> feature sequence
 	var parsed poly.Location
 	func() {
